@@ -281,6 +281,105 @@ fn table(c: &mut Ctx) {
 	c.fam::<CA, CA>("derived CompactAs struct ~ itself", |b| b.clone());
 }
 
+// ---- probe matrix: every ordered pair of a list of concrete types is asked at compile time whether
+// ---- `A: EncodeLike<B>` is declared; declared pairs are checked, so that a *newly added* false
+// ---- declaration between these types is decided too (not only the hand-written table).
+
+pub struct PairProbe<A, B>(pub std::marker::PhantomData<(A, B)>);
+pub trait PairFallback {
+	fn run(&self, _name: &str, _acc: &mut Acc) -> bool {
+		false
+	}
+}
+impl<A, B> PairFallback for PairProbe<A, B> {}
+impl<A: Subject + Encode + EncodeLike<B>, B: Subject + Encode + Decode> PairProbe<A, B> {
+	pub fn run(&self, name: &str, acc: &mut Acc) -> bool {
+		let sa = A::shape();
+		let sb = B::shape();
+		for v in domain::values(&sa, &domain::Bound::small()) {
+			let Ok(want) = ref_enc(&sa, &v) else { continue };
+			let a = A::from_value(&v);
+			acc.evaluations += 1;
+			acc.transitions += 2;
+			let r: Result<(), String> = (|| {
+				let got = guarded(|| a.encode()).map_err(|p| format!("encode panicked: {}", p))?;
+				if !sa.order_free() && got != want {
+					return Err(format!("alias encodes to {} but the reference encoding of its value is {}", hex(&got), hex(&want)));
+				}
+				let mut s = &got[..];
+				let b = guarded(|| B::decode(&mut s)).map_err(|p| format!("decode panicked: {}", p))?.map_err(|e| {
+					format!("bytes {} of the alias value {} do not decode as the declared target: {}", hex(&got), value_short(&v), e)
+				})?;
+				if !s.is_empty() {
+					return Err(format!("decoding the alias' bytes {} as the declared target leaves {} bytes", hex(&got), s.len()));
+				}
+				// the target value re-encodes to the same bytes unless the target reorders (sets, maps, heaps)
+				let reorders = sb.order_free() || format!("{:?}", sb).contains("Set") || format!("{:?}", sb).contains("Map(");
+				if !reorders && b.encode() != got {
+					return Err(format!("the target value decoded from {} re-encodes differently", hex(&got)));
+				}
+				Ok(())
+			})();
+			match r {
+				Ok(()) => {
+					acc.states += 1;
+					acc.traces += 1;
+					acc.nontrivial += 1;
+				},
+				Err(detail) => acc.violate(Violation {
+					property: "C16".into(),
+					sub: "C16.matrix".into(),
+					key: format!("C16|declared {}", name),
+					detail: format!("{}: {}", name, detail),
+					case: json!({"sub": "C16.matrix", "pair": name}),
+				}),
+			}
+		}
+		true
+	}
+}
+
+macro_rules! matrix_row {
+	($acc:ident, $only:ident, $declared:ident, $a:ty, $an:literal; $( $b:ty, $bn:literal );* ) => {$(
+		{
+			#[allow(unused_imports)]
+			use PairFallback as _;
+			let name = concat!($an, " ~ ", $bn);
+			if $only.map_or(true, |o: &str| o == name) {
+				if PairProbe::<$a, $b>(std::marker::PhantomData).run(name, $acc) {
+					$declared += 1;
+					$acc.outcome(name);
+				}
+			}
+		}
+	)*};
+}
+macro_rules! matrix {
+	($acc:ident, $only:ident, $declared:ident; $( $t:ty, $n:literal );* ) => {
+		matrix!(@rows $acc, $only, $declared; [$( $t, $n );*]; $( $t, $n );*);
+	};
+	(@rows $acc:ident, $only:ident, $declared:ident; [$( $bt:ty, $bn:literal );*]; $a:ty, $an:literal $(; $rt:ty, $rn:literal )* ) => {
+		matrix_row!($acc, $only, $declared, $a, $an; $( $bt, $bn );*);
+		matrix!(@rows $acc, $only, $declared; [$( $bt, $bn );*]; $( $rt, $rn );*);
+	};
+	(@rows $acc:ident, $only:ident, $declared:ident; [$( $bt:ty, $bn:literal );*]; ) => {};
+}
+
+/// Returns the number of declared pairs found among the probed types.
+pub fn probe_matrix(acc: &mut Acc, only: Option<&str>) -> u64 {
+	let mut declared = 0u64;
+	matrix!(acc, only, declared;
+		u8, "u8"; u32, "u32"; i64, "i64"; bool, "bool"; (), "()"; String, "String"; Compact<u32>, "Compact<u32>";
+		Vec<u8>, "Vec<u8>"; Vec<u32>, "Vec<u32>"; Vec<Box<u32>>, "Vec<Box<u32>>"; Vec<(u32,)>, "Vec<(u32,)>"; VecDeque<u32>, "VecDeque<u32>"; VecDeque<u8>, "VecDeque<u8>";
+		LinkedList<u32>, "LinkedList<u32>"; BTreeSet<u32>, "BTreeSet<u32>"; BinaryHeap<u32>, "BinaryHeap<u32>"; BTreeMap<u32, u32>, "BTreeMap<u32, u32>";
+		Box<u32>, "Box<u32>"; Rc<u32>, "Rc<u32>"; Arc<u32>, "Arc<u32>"; Cow<'static, u32>, "Cow<u32>"; Box<String>, "Box<String>"; Cow<'static, str>, "Cow<str>";
+		Option<u32>, "Option<u32>"; Option<Box<u32>>, "Option<Box<u32>>"; Option<bool>, "Option<bool>"; OptionBool, "OptionBool"; Result<u32, u8>, "Result<u32, u8>"; Result<Box<u32>, Rc<u8>>, "Result<Box<u32>, Rc<u8>>";
+		(u32,), "(u32,)"; (u32, u8), "(u32, u8)"; (Box<u32>, Rc<u8>), "(Box<u32>, Rc<u8>)"; [u32; 2], "[u32; 2]"; [Box<u32>; 2], "[Box<u32>; 2]"; [u8; 4], "[u8; 4]";
+		bytes::Bytes, "Bytes"; std::time::Duration, "Duration"; u64, "u64"; Compact<u64>, "Compact<u64>"; std::num::NonZeroU32, "NonZeroU32"
+	);
+	declared
+}
+
 /// `CompactRef<T: CompactAs>` is `EncodeLike` itself and must produce the bytes of `Compact<T>`.
 fn compact_ref(acc: &mut Acc) {
 	for x in domain::uint_boundary(32) {
@@ -332,6 +431,11 @@ pub fn run(tier: Tier, reg: &[VT]) -> Report {
 	}
 	compact_ref(&mut acc);
 	let families = acc.outcomes.len();
+	let mut macc = Acc::default();
+	let declared = probe_matrix(&mut macc, None);
+	macc.add("declared_pairs_found", declared);
+	macc.add("pairs_probed", 40 * 40);
+	macc.sample(json!({"pair": "Vec<Box<u32>> ~ Vec<u32>", "how": "declared (found by the compile-time probe); every boundary value of the alias decodes as the target"}));
 	acc.sample(json!({"family": "VecDeque<u32> ~ Vec<u32>", "alias_value": "wrapped deque [1, 2, 3]", "target": "Vec<u32>", "bytes": "0c010000000200000003000000"}));
 	let lines = count_impl_lines();
 	if lines != IMPL_LINES_AT_PINNED_COMMIT {
@@ -343,6 +447,8 @@ pub fn run(tier: Tier, reg: &[VT]) -> Report {
 	acc.add("encode_like_impl_lines", lines as u64);
 	acc.add("families", families as u64);
 	rep.part("pair table", "every EncodeLike<B> for A family instantiated with concrete types x the boundary domain of B: alias bytes == reference encoding of the target value and decode as B to it", acc);
+
+	rep.part("probe matrix", "all 1600 ordered pairs of 40 concrete types are asked at compile time whether A: EncodeLike<B> is declared; every declared pair x boundary values of A: bytes == reference encoding, decode as B succeeds consuming everything", macc);
 
 	// the derive-emitted `EncodeLike for Self`: alias forms of every derived type in the registry
 	let derived: Vec<&VT> = reg.iter().filter(|v| v.class == "derived").collect();
@@ -372,7 +478,7 @@ pub fn run(tier: Tier, reg: &[VT]) -> Report {
 
 	rep.rule = "case = (EncodeLike family instantiated with concrete types, value of the target type's boundary domain); the compiler checks that every listed pair is declared; non-trivial = all".into();
 	rep.bounds = json!({"element_types": ["u8", "u32", "String", "Vec<u16>", "(u8, bool)"], "families": families});
-	rep.assumptions = vec!["a newly added false EncodeLike declaration is outside the hand-written table and only trips the completeness warning".into()];
+	rep.assumptions = vec!["a newly added false EncodeLike declaration is decided if it relates two of the 40 probed concrete types (or a family of the table); otherwise it only trips the completeness warning".into()];
 	rep
 }
 
@@ -385,6 +491,11 @@ pub fn replay(reg: &[VT], case: &Json) -> Option<String> {
 				let mut c = Ctx { acc: &mut acc, only: Some(&fam) };
 				table(&mut c);
 			}
+			acc.violations.first().map(|v| v.detail.clone())
+		},
+		"C16.matrix" => {
+			let mut acc = Acc::default();
+			probe_matrix(&mut acc, case["pair"].as_str());
 			acc.violations.first().map(|v| v.detail.clone())
 		},
 		"C16.cref" => {
